@@ -566,3 +566,30 @@ def same_name_in_one_service(c):
         out = c.run(Application, [o1.value], TNS, in_protocol=ProtocolBase(), out_protocol=ProtocolBase())
     c.check('conflict_rejected_at_construction', out.raised and not isinstance(out.exc, (TypeError, AttributeError)),
             detail=repr(out))
+
+
+@obligation('C11.table.interface_key', targets=['spyne.descriptor:MethodDescriptor.gen_interface_key'],
+            desc="the interface key of a service method is exactly '<module>.<service name>.<method name>' for every module "
+                 "name (symbolic text): two services in different modules never share a key, whatever the modules are called",
+            assumptions=["'{}.{}.{}'.format on text is modelled as concatenation"])
+def interface_key(c):
+    from pyvc.text import text_eq, FmtStr
+    mod = c.str('module_name')
+
+    def act(ctx, i):
+        return i
+    Svc = type(ServiceBase)('KeySvc', (ServiceBase,), {'__module__': 'pkg.mod', 'act': rpc(Integer, _returns=Integer)(act)})
+    d = Svc.public_methods['act']
+    if c.concrete:
+        Svc.__module__ = mod
+    else:
+        type.__setattr__(Svc, '__module__', mod)
+    out = c.run(d.gen_interface_key, Svc)
+    c.check('returns', out.returned, detail=repr(out))
+    if out.returned:
+        want_tail = '.KeySvc.act'
+        if c.concrete:
+            c.check('key_is_module_service_method', out.value == mod + want_tail, detail=repr(out.value))
+        else:
+            c.check('key_is_module_service_method', text_eq(out.value, mod + want_tail) if isinstance(out.value, (str, FmtStr)) else False,
+                    detail=repr(out.value))
